@@ -4,6 +4,7 @@ package c03
 import (
 	"bytes"
 	"crypto"
+	"crypto/rsa"
 	"crypto/x509"
 	"fmt"
 	"testing"
@@ -276,6 +277,25 @@ func checkCase(c Case) error {
 			outsider := ids[c.Outsider%8].Cert
 			if ok, err := view.Verify(outsider); ok && err == nil {
 				return fmt.Errorf("%s (pass %d): Verify succeeds for a certificate that never signed", step, pass)
+			}
+			// ... nor for a certificate that merely carries the newest signer's issuer and serial: on another RSA key,
+			// or on a key that is no RSA key at all
+			if len(signers) > 0 && pass == 1 {
+				sc := signers[len(signers)-1]
+				other := 0
+				if pk, isRSA := sc.PublicKey.(*rsa.PublicKey); isRSA && pk.N.Cmp(gen.Keys()[0].N) == 0 {
+					other = 1
+				}
+				if tw, terr := gen.Twin(gen.Identity{Key: -1, Cert: sc}, other); terr == nil {
+					if ok, err := view.Verify(tw.Cert); ok && err == nil {
+						return fmt.Errorf("%s (pass %d): Verify succeeds for a certificate with the signer's issuer and serial but another key, which never signed", step, pass)
+					}
+				}
+				if at, terr := gen.AlienTwin(gen.Identity{Key: -1, Cert: sc}, len(out)); terr == nil {
+					if ok, err := view.Verify(at); ok && err == nil {
+						return fmt.Errorf("%s (pass %d): Verify succeeds for a certificate with the signer's issuer and serial on a key that is not an RSA key", step, pass)
+					}
+				}
 			}
 		}
 		prev = out
